@@ -4,7 +4,7 @@
    independent layouts: Spec/Srv1Spec.v (reqid_layout, reqid_u32, enum_layout, srv1_src_layout,
    srv1_layout, srv1_shape_ok). *)
 From Coq Require Import ZArith List Bool.
-From SP Require Import Base.Result Base.Bytes Model.SpacePacket Model.PusTm Model.ReqId Model.Fields Model.Srv1
+From SP Require Import Base.Result Base.Bytes Model.SpacePacket Model.PusTc Model.PusTm Model.ReqId Model.Fields Model.Srv1
   Spec.SpacePacketSpec Spec.PusSpec Spec.Srv1Spec Proofs.ReqIdProofs Proofs.Srv1Proofs.
 Import ListNotations.
 Open Scope Z_scope.
@@ -189,6 +189,26 @@ Theorem C15_srv1_unpack_raw_layout : forall t vp0 k h step fail cfg,
   unpack_raw_tm {| s1_tm := t; s1_vp := vp0 |} cfg = Ok {| s1_tm := t; s1_vp := mk_vp h step fail |}.
 Proof. exact unpack_raw_tm_layout. Qed.
 Print Assumptions C15_srv1_unpack_raw_layout.
+
+(* the telecommand: PusTc(...) has an in-range header and its request ID is the first four
+   octets of its own packed header; create_*_tm carries exactly that request ID *)
+Theorem C15_reqid_of_tc : forall service subservice apid app seq source_id ack t,
+  tc_new service subservice apid app seq source_id ack = Ok t ->
+  sph_valid (tc_sph t) /\
+  sph_pack (tc_sph t) = Ok (sph_layout (tc_sph t)) /\
+  reqid_pack (reqid_from_sph (tc_sph t)) = Ok (firstn 4 (sph_layout (tc_sph t))).
+Proof. exact reqid_of_tc. Qed.
+Print Assumptions C15_reqid_of_tc.
+
+Theorem C15_srv1_create_for_tc : forall service subservice tcapid app seq source_id ack t k apid stamp step fail,
+  tc_new service subservice tcapid app seq source_id ack = Ok t ->
+  1 <= k <= 8 -> srv1_args_valid apid k 0 0 0 0 stamp (tc_sph t) step fail ->
+  srv1_shape_ok k (has step) (has fail) ->
+  srv1_create k apid (tc_sph t) (pfe_of step) (fn_of fail) stamp =
+  Ok {| s1_tm := mk_tm 1 k apid 0 0 0 0 0 stamp (srv1_src_layout (tc_sph t) step fail) None;
+        s1_vp := mk_vp (tc_sph t) step fail |}.
+Proof. exact srv1_create_for_tc. Qed.
+Print Assumptions C15_srv1_create_for_tc.
 
 (* non-vacuity of the hypotheses of C15_srv1_unpack_pack: a step-failure report, version 5,
    2-octet step ID 0xffff, 4-octet code 0xffffffff, three octets of failure data, 3-octet timestamp *)
